@@ -62,6 +62,7 @@ inductive PErr where
   | root          -- "cannot use root" / "cannot get root"
   | notExist
   | noMatch
+  | multiple      -- storage.ErrExistsMultipleLocations
   | other
   deriving DecidableEq, Repr
 
@@ -71,6 +72,7 @@ def PErr.tag : PErr → String
   | .root => "root"
   | .notExist => "not-exist"
   | .noMatch => "no-match"
+  | .multiple => "multiple"
   | .other => "other"
 
 def jumpPrefix : Str := ['.', '.', '/']
